@@ -387,8 +387,10 @@ def vod_url(t: Track, k: int, ov: dict, addr: str) -> str:
 
 def gen_cases(rng, tracks: list[Track], n: int, live_share: float = .25) -> list[dict]:
     cases = []
+    fixtures = [t for t in tracks if "fixture" in t.spec]
     while len(cases) < n:
-        t = rng.choice(tracks)
+        # real media (long sample tables, sbgp/sgpd boxes) keeps a fixed share of the cases
+        t = rng.choice(fixtures) if fixtures and rng.random() < .15 else rng.choice(tracks)
         live = rng.random() < live_share
         far = live and rng.random() < .5
         ov = gen_options(rng, t, far)
@@ -617,7 +619,7 @@ def channels(ctx):
                                                                events="ping", ping__interval="50")):
                 cases.append({"src": t.spec, "mode": "vod", "addr": "number", "url": vod_url(t, k, ov, "number"),
                               "now": "2024-02-03T04:05:06Z", "ov": ov})
-    cases += gen_cases(rng, tracks, ctx.scale(2500, 45000))
+    cases += gen_cases(rng, tracks, ctx.scale(3000, 36000))
     evaluate(cases, ch)
     yield ch
 
